@@ -58,6 +58,41 @@ def fn_items(path):
     return out
 
 
+OPS = {"eq": "==", "ne": "!=", "lt": "<", "le": "<=", "gt": ">", "ge": ">="}
+
+
+def _is_view(e, params):
+    k = e[0]
+    if k == "path": return len(e[1]) == 1 and (e[1][0] == "self" or e[1][0] in params)
+    if k in ("paren", "ref", "refmut", "deref", "unsafe", "cast"): return _is_view(e[1], params)
+    if k == "un" and e[1] in ("*", "&", "&mut"): return _is_view(e[2], params)
+    if k == "field": return _is_view(e[1], params)
+    if k == "index": return _is_view(e[1], params) and e[2][0] == "range" and e[2][1] is None and e[2][2] is None
+    if k == "block": return not e[1] and e[2] is not None and _is_view(e[2], params)
+    return False
+
+
+def shape_of(text, line, name):
+    """for a function that is not translated: is its body literally a view of `self` (`&self[..]`, `&**self`, a field) or a
+    forward (the same method / trait function / comparison operator applied to views of `self` and the parameters)?"""
+    import rsparse
+    off = sum(len(l) + 1 for l in text.split("\n")[:line - 1])
+    try:
+        sig, body = rsparse.find_fn(text[off:], name, 0, None)
+    except Exception:
+        return "unparsed"
+    params = [n for n, _ in sig["params"]]
+    if body[0] != "block" or body[1] or body[2] is None: return "other"
+    e = body[2]
+    while e[0] in ("unsafe", "paren") or (e[0] == "block" and not e[1] and e[2] is not None):
+        e = e[1] if e[0] != "block" else e[2]
+    if _is_view(e, params): return "view"
+    if e[0] == "mcall" and e[2] == name and _is_view(e[1], params) and all(_is_view(a, params) for a in e[3]): return "forward"
+    if e[0] == "call" and e[1][0] == "path" and e[1][1][-1] == name and e[2] and all(_is_view(a, params) for a in e[2]): return "forward"
+    if e[0] == "bin" and name in OPS and e[1] == OPS[name] and _is_view(e[2], params) and _is_view(e[3], params): return "forward"
+    return "other"
+
+
 def translated():
     """{(file, rust name, anchor-ish)} -> lean name, from the translators' own tables"""
     res = []
@@ -93,7 +128,7 @@ def main():
         if fn.startswith("GenFn") and fn.endswith(".lean"):
             props += open(os.path.join(pdir, fn)).read()
     tr = translated()
-    rows, summary = [], {}
+    rows, summary, shapes = [], {}, {}
     for rel in FILES:
         items = fn_items(os.path.join(REPO, rel))
         text = stripped(os.path.join(REPO, rel))
@@ -111,7 +146,10 @@ def main():
                 status = "translated+proved" if proved else "translated"
             else:
                 lean, status = "", "harness-only"
-            rows.append({"file": rel, "fn": name, "line": ln, "impl": impl, "status": status, "lean": lean})
+            shape = shape_of(text, ln, name) if status == "harness-only" else ""
+            if shape:
+                shapes[shape] = shapes.get(shape, 0) + 1
+            rows.append({"file": rel, "fn": name, "line": ln, "impl": impl, "status": status, "lean": lean, "shape": shape})
             summary.setdefault(rel, {}).setdefault(status, 0)
             summary[rel][status] += 1
     total = {}
@@ -119,14 +157,15 @@ def main():
         for k, v in d.items():
             total[k] = total.get(k, 0) + v
     if "--json" in sys.argv:
-        print(json.dumps({"summary": summary, "total": total, "rows": rows}, indent=1))
+        print(json.dumps({"summary": summary, "total": total, "harness_only_shapes": shapes, "rows": rows}, indent=1))
         return
     for rel in FILES:
         print(f"== {rel}: {summary.get(rel, {})}")
         for r in rows:
             if r["file"] == rel and r["status"] != "translated+proved":
-                print(f"   {r['status']:13} {r['fn']:40} line {r['line']:5}  {r['impl'][:70]}")
+                print(f"   {r['status']:13} {r.get('shape', ''):8} {r['fn']:36} line {r['line']:5}  {r['impl'][:64]}")
     print("TOTAL", total)
+    print("harness-only by shape (view = a view of self; forward = the same method / operator on views of self and the parameters):", shapes)
 
 
 if __name__ == "__main__":
